@@ -336,6 +336,10 @@ def mech_for(kind, iface, cfgname, spec, flags, exc=None, probe=None):
     ename = type(exc).__name__ if exc is not None else ""
     try:
         if base.startswith(ADJOINT_FAMILY):
+            # structural fallback when the probe cannot run (e.g. broadcast case): a gate with >= 2 controls is decomposed by the
+            # adjoint preprocessing into MultiControlledX (data holds the control values, num_params is 0)
+            if any(g["name"].startswith("C(") and int((g.get("hyper") or g.get("kw") or {}).get("n_ctrl", 0) or 0) >= 2 for g in spec["gates"] if isinstance(g, dict)):
+                return "adjoint:op-data-vs-num_params-mismatch:MultiControlledX"
             nontr = False
             for g, t in zip(spec["gates"], flags):
                 if t and not all(t):
@@ -343,10 +347,10 @@ def mech_for(kind, iface, cfgname, spec, flags, exc=None, probe=None):
                 if len(t) >= 2:
                     if not any(t) or (g["name"] == "U2" and not t[1]) or (g["name"] == "U3" and not t[0] and not t[2]):
                         return "adjoint:multiparam-op-shifts-param-index"
-            if probe is not None and probe():
-                return "adjoint:multiparam-op-shifts-param-index"
             if probe is not None and probe("mcx"):
                 return "adjoint:op-data-vs-num_params-mismatch:MultiControlledX"
+            if probe is not None and probe():
+                return "adjoint:multiparam-op-shifts-param-index"
             obs_params = any(m["kind"] != "probs" and m["obs"][0] in ("herm", "sum", "proj") for m in spec["meas"])
             if nonstandard_wires(spec) and (nontr or obs_params):
                 return "adjoint:map_to_standard_wires-resets-trainable"
@@ -487,7 +491,7 @@ def run(ctx):
 
         def probe(what="multiparam", flags_x=flags_x):
             """differential / structural probes used only to NAME the mechanism of an already detected failure"""
-            if spec.get("batch"):
+            if spec.get("batch") and what == "nocache":
                 return False
             th = R.flat_gate_params(x)
             tr = [k for k, f in enumerate([f for fl in flags_x for f in fl]) if f]
